@@ -269,4 +269,56 @@ def verify (env : Env) (c : Cert) (hostCert : C09.Cert) (opts : Opts) : Res Out 
         | .err => .err
         | .ok d => finish d hostCert opts
 
+/-! ### ValidateWithStupidDetail (x509/validation.go) -/
+
+/-- `Validation`; `browserError` is the KIND of the error whose text is stored in `BrowserError`
+    (`none` = empty string). -/
+structure Validation where
+  browserTrusted : Bool
+  browserError : Option Err
+  matchesDomain : Bool
+  domain : C09.Str
+
+structure VsdOut where
+  chains : List Chain        -- the CURRENT chains of the inner `Verify`
+  validation : Validation
+  err : Option Err
+
+/-- `(*Certificate).ValidateWithStupidDetail` with a non-zero `opts.CurrentTime`: the requested key
+    usages are DISCARDED (`opts.KeyUsages = nil`, so the inner `Verify` defaults to ServerAuth), the
+    DNS name is taken out of the options and checked separately by `VerifyHostname`; a host-name
+    mismatch becomes the returned error only when chain building succeeded. -/
+def validateWithStupidDetail (env : Env) (c : Cert) (hostCert : C09.Cert) (opts : Opts) : Res VsdOut :=
+  match verify env c hostCert { now := opts.now, keyUsages := [], dnsName := [] } with
+  | .panic => .panic
+  | .err => .err
+  | .ok o =>
+    let trusted : Bool := match o.err with
+      | none => true
+      | some _ => false
+    if opts.dnsName.length = 0 then
+      .ok { chains := o.current, err := o.err,
+            validation := { browserTrusted := trusted, browserError := o.err, matchesDomain := false, domain := opts.dnsName } }
+    else
+      match C09.verifyHostname hostCert opts.dnsName with
+      | .ok .accept =>
+        .ok { chains := o.current, err := o.err,
+              validation := { browserTrusted := trusted, browserError := o.err, matchesDomain := true, domain := opts.dnsName } }
+      | .ok (.reject _) =>
+        .ok { chains := o.current,
+              err := (match o.err with
+                | none => some Err.hostname
+                | some e => some e),
+              validation := { browserTrusted := trusted, browserError := o.err, matchesDomain := false, domain := opts.dnsName } }
+      | .err => .err
+      | .panic => .panic
+
+/-- The constant `maxIntermediateCount` and the guards of `isValid` are re-read from
+    x509/verify.go on every run (`ZV.C07.Gen`, T1); see `maxIntermediateCount_generated`. -/
+def isValidGuards : List String :=
+  ["certType==CertificateTypeIntermediate&&(!c.BasicConstraintsValid||!c.IsCA)",
+   "c.BasicConstraintsValid&&c.MaxPathLen>=0",
+   "numIntermediates>c.MaxPathLen",
+   "len(currentChain)>maxIntermediateCount"]
+
 end ZV.C07
